@@ -225,13 +225,29 @@ func execC06Stdio(c C06Case) *Failure {
 		}
 	}()
 	for i, op := range c.Ops {
-		body, malformed, _ := c06Body(op, true)
+		body, malformed, wantID := c06Body(op, true)
 		body = bytes.ReplaceAll(body, []byte("\n"), []byte(" "))
 		expect := ""
 		if malformed {
 			expect = "null"
 		}
-		ex := conn.sendStdioAny(body, malformed, Bound())
+		ex := conn.sendStdioAny(body, malformed || wantID != "", Bound())
+		if served := op.Body == "valid-ping" || op.Body == "valid-call" || op.Body == "valid-list" || op.Body == "large"; served && !malformed && wantID != "" {
+			// a well-formed request among the abuse (however long its line) is served normally
+			ok := false
+			for _, fr := range ex.Frames {
+				if id, has := rawIDOf(fr); has && id == wantID && isResponseFrame(fr) && !bytes.Contains(fr, []byte(`"error"`)) {
+					ok = true
+				}
+			}
+			if !ok {
+				f := TimingFailf("C06/stdio-well-formed-not-served/"+op.Body, "stdio op %d: the well-formed request %s (%d bytes) was not answered with its result (frames %.300q)", i, op.Body, len(body), ex.Frames)
+				if len(ex.Frames) > 0 {
+					f.Timing = false
+				}
+				return f
+			}
+		}
 		for _, fr := range ex.Frames {
 			if _, fail := decodeFrame(fr, true); fail != nil {
 				fail.Key = "C06/" + strings.TrimPrefix(fail.Key, "C03/")
